@@ -41,6 +41,7 @@ structure Running where
   reason : Bool
   ctxSkip : Bool                 -- skipped because the context said so (to be justified at finish)
   kept : List Td
+  altKept : List (List Td × Insts)  -- other values (with the instance state that goes with them) `teardown_funcs` may have when read (setup task still running: interrupt path)
   instsAtStart : Insts
   out : TaskOut
   consumed : List Item           -- newest first
@@ -171,11 +172,18 @@ def listPrefix (pre l : List Item) : Bool := (l.take pre.length).map normItem ==
 
 /-- try to explain a mismatch by the keyboard interrupt: find the first API act index from which acts
     raise, such that the recomputed output has the consumed items as prefix and the observed item next -/
-def findCut (c : Ctx) (r : Running) (obs : Item) (maxActs : Nat) : Option (Nat × TaskOut) :=
+def findCut (c : Ctx) (r : Running) (obs : Item) (maxActs : Nat) : Option (Option Nat × (List Td × Insts) × TaskOut) :=
   let consumed := r.consumed.reverse
-  (List.range (maxActs + 1)).findSome? (fun k =>
-    let out := runTask c.P r.instsAtStart r.worker r.tid r.run r.reason r.kept (some k)
-    if listPrefix (consumed ++ [obs]) out.items then some (k, out) else none)
+  let tryOne (ki : List Td × Insts) (cut : Option Nat) : Option (Option Nat × (List Td × Insts) × TaskOut) :=
+    let out := runTask c.P ki.2 r.worker r.tid r.run r.reason ki.1 cut
+    if listPrefix (consumed ++ [obs]) out.items then some (cut, ki, out) else none
+  -- first: another value of the setup task's teardown list (read while the setup task was still running)
+  match r.altKept.findSome? (fun k => tryOne k r.cut) with
+  | some x => some x
+  | none =>
+    if r.cut.isSome then none else
+    ((r.kept, r.instsAtStart) :: r.altKept).findSome? (fun kept =>
+      (List.range (maxActs + 1)).findSome? (fun k => tryOne kept (some k)))
 
 inductive Verdict
   | ok (g : G)
@@ -203,18 +211,20 @@ def acceptItem (c : Ctx) (g : G) (th : Nat) (mk : Nat → Item) : Verdict :=
     match r.expected with
     | e :: _ =>
       if itemMatches e obs then advance r
-      else if (g.defF.interrupted) && r.cut.isNone then
+      else if g.defF.interrupted then
         match findCut c r obs 400 with
-        | some (k, out) =>
-          let r' := { r with cut := some k, out := out, expected := out.items.drop r.consumed.length }
+        | some (k, kept, out) =>
+          let r' := { r with cut := k, kept := kept.1, instsAtStart := kept.2, altKept := [], out := out,
+                             expected := out.items.drop r.consumed.length }
           advance r'
         | none => advance r
       else advance r
     | [] =>
-      if g.defF.interrupted && r.cut.isNone then
+      if g.defF.interrupted then
         match findCut c r obs 400 with
-        | some (k, out) =>
-          let r' := { r with cut := some k, out := out, expected := out.items.drop r.consumed.length }
+        | some (k, kept, out) =>
+          let r' := { r with cut := k, kept := kept.1, instsAtStart := kept.2, altKept := [], out := out,
+                             expected := out.items.drop r.consumed.length }
           advance r'
         | none => advance r
       else advance r
@@ -290,9 +300,15 @@ def step (c : Ctx) (g : G) : Rec → Verdict
             let kept := match setupOf tid with
               | some sid => (g.kept.lookup sid).getD []
               | none => []
+            -- after an interrupt a teardown task may start while its setup task is still running: what it
+            -- reads from `teardown_funcs` is then [] or, once the setup function has returned, the final list
+            let altKept : List (List Td × Insts) := match setupOf tid with
+              | some sid => (g.running.filter (fun x => x.tid == sid)).map (fun x =>
+                  (x.out.eff.kept, mergeInsts g.insts x.instsAtStart x.out.eff.insts))
+              | none => []
             let out := runTask c.P g.insts w tid run reason kept none
             let r : Running :=
-              { task := t, tid := tid, worker := w, run := run, reason := reason, ctxSkip := ctxSkip, kept := kept,
+              { task := t, tid := tid, worker := w, run := run, reason := reason, ctxSkip := ctxSkip, kept := kept, altKept := altKept,
                 instsAtStart := g.insts, out := out, consumed := [], expected := out.items, roles := [(w, 0)], cut := none }
             .ok { g with sched := s', running := r :: g.running, startedEff := mergeFlags g.startedEff out.eff }
   | .fire th e =>
